@@ -508,6 +508,16 @@ def monitor(g, log, rec):
             bad.append('until=%s: env.until() returned at %d, not at the stop time %d' % (u, log[rec.end_marker][2], stop_t))
     unhandled = [i for (i, t, defused) in rec.processed
                  if not defused and i in trig_out and trig_out[i][0] in (1, 2)]
+    if unhandled:
+        # a failure counts as unhandled only if nobody was waiting for the event: whoever waited for it
+        # before it fired must have been resumed (and thereby handles it) before the failure is escalated
+        i = unhandled[0]
+        logged = {(e[0], e[1]) for e in log}
+        for (actor, step), (y, node) in rec.yields.items():
+            if node == i and y < trig_time[i] and (actor, step) not in logged:
+                bad.append('event %d failed at %d while actor %d (step %d) had been waiting for it since %d, '
+                           'yet the waiter was not resumed and the failure ended the run'
+                           % (i, trig_time[i], actor, step, y))
     if res is not None:
         if res[0] == 10 and u[0] == 'event':
             if u[1] not in trig_out or res[1:] != trig_out[u[1]]:
@@ -782,12 +792,15 @@ def c_log(l):
     return lst([lst([z(x) for x in e]) for e in l])
 
 
-def case_file(cases):
-    body = ';\n'.join('(%s,\n  %s)' % (c_graph(g), c_log(l)) for g, l in cases)
+def case_text(g, log):
+    return '(%s,\n  %s)' % (c_graph(g), c_log(log))
+
+
+def case_file(texts):
     return ('From Coq Require Import List ZArith Bool.\nImport ListNotations.\n'
             'From Usim Require Import SimEvent.\nOpen Scope Z_scope.\n'
             'Definition cases : list (graph * list (list Z)) := [\n%s\n].\n'
-            'Eval vm_compute in (bad_cases cases).\n' % body)
+            'Eval vm_compute in (bad_cases cases).\n' % ';\n'.join(texts))
 
 
 # ---------------------------------------------------------------------------- driver
@@ -829,30 +842,32 @@ def batches(ctx):
 
 
 def run(ctx):
-    cases, fams = [], []
+    import json
+    from harness.check import parse_nat_list
+    # cases are kept as strings only: the per-run gc.collect() (needed so that tasks left parked by one
+    # run are finalised before the next loop starts) must not have to traverse thousands of old graphs
+    cases = []
     for fam, g in batches(ctx):
         log = check_one(ctx, g, fam)
         if log is not None:
-            cases.append((g, log))
-            fams.append(fam)
-    for g, _ in cases[:3]:
-        ctx.sample(g)
+            if len(cases) < 3:
+                ctx.sample(g)
+            cases.append((fam, json.dumps(g), json.dumps(log), case_text(g, log)))
     paths, shards = [], []
     for i in range(0, len(cases), 400):
         shard = cases[i:i + 400]
-        paths.append(ctx.write_case_file('Cases%03d' % (i // 400), case_file(shard)))
-        shards.append((i, shard))
-    from harness.check import parse_nat_list
+        paths.append(ctx.write_case_file('Cases%03d' % (i // 400), case_file([c[3] for c in shard])))
+        shards.append(shard)
     res = ctx.run_case_files(paths)
-    for path, (base, shard) in zip(paths, shards):
+    for path, shard in zip(paths, shards):
         rc, out = res[path]
         bad = parse_nat_list(out) if rc == 0 else None
         if bad is None:
             ctx.mismatch('coq', None, None, None, 'case file %s did not evaluate: %s' % (path, out[-400:]))
             continue
         for j in bad:
-            g, log = shard[j]
-            ctx.mismatch(fams[base + j], g, log, None, 'the Coq machine produces a different log')
+            fam, gj, lj, _ = shard[j]
+            ctx.mismatch(fam, json.loads(gj), json.loads(lj), None, 'the Coq machine produces a different log')
 
 
 def search(ctx):
